@@ -211,8 +211,10 @@ def gen_reads(ctx, W, WO):
     for _ in range(150 if quick else 4000):
         ln = rng.choice([0, 1, rng.randrange(0, 120), rng.randrange(0, LIM + 2), LIM, LIM + 1])
         av = rng.choice([ln, ln, max(0, ln - 1), ln + 3, rng.randrange(0, ln + 5)])
-        rd(header_bytes(rng.randrange(0, 2 ** 32), ln, rng.randrange(-2 ** 63, 2 ** 63), rng.randbytes(16), rng.randbytes(16))
-           + rng.randbytes(av), "rnd", chunk=rng.choice([0, 0, 1, 9]))
+        f_proto, f_ts, f_id, f_orig, f_tail = rng.randrange(0, 2 ** 32), rng.randrange(-2 ** 63, 2 ** 63), rng.randbytes(16), rng.randbytes(16), rng.randbytes(av)
+        rd(header_bytes(f_proto, ln, f_ts, f_id, f_orig) + f_tail, "rnd", chunk=rng.choice([0, 0, 1, 9]))
+        # the wire format (big-endian fields at fixed offsets) as a direct expectation on what ReadMsg decodes
+        R[-1][0]["_exp"] = {"proto": f_proto, "len": ln, "ts": f_ts, "id": hx(f_id), "orig": hx(f_orig)}
     # purely random streams
     for _ in range(100 if quick else 3000):
         rd(rng.randbytes(rng.choice([0, 1, 47, 48, 49, rng.randrange(0, 200)])), "rnd")
@@ -402,7 +404,16 @@ def coq_hs_case(c, o):
 def run(ctx):
     rng = ctx.rng
     quick = ctx.tier == "quick"
+    import time
+    tm = {}
+    t0 = time.time()
+
+    def lap(name):
+        nonlocal t0
+        tm[name] = round(tm.get(name, 0) + time.time() - t0, 1)
+        t0 = time.time()
     pr = ctx.prove()
+    lap("prove")
     ctx.cov["trusted_base"] = [
         "Coq 8.16.1 kernel + vm_compute", "Go toolchain and runtime.MemStats", "engines harness/engines/p2p/*.go",
         "case generator checks/C18.py", "gomock doubles of PeerManager/ActorService/ChainAccessor (reply path of DoForInbound only)",
@@ -428,6 +439,7 @@ def run(ctx):
     if rc != 0:
         raise RuntimeError("types engine build failed:\n" + log[-3000:])
 
+    lap("go build")
     pred_fail = []     # (key, what, replay)
     corr = []          # (what, cases)
     dist = {}
@@ -495,12 +507,19 @@ def run(ctx):
         pred_fail += read_predicates(c, kind, wi, o, W, WO)
         # ---- model items
         if c["op"] == "read":
+            stream = bytes.fromhex(c["stream"])
             if o["cls"] == 0:
-                m = coq_msg(o["proto"], o["len"], o["ts"], bytes.fromhex(o["id"]), bytes.fromhex(o["orig"]), bytes.fromhex(o["payload"]))
-                rest = cb(bytes.fromhex(o["rest"]))
+                # observed payload / rest: when they are (as compared here, byte for byte) slices of the stream that was
+                # sent, they are written as slices of it instead of being repeated (halves the size of the case file)
+                pl, rs = bytes.fromhex(o["payload"]), bytes.fromhex(o["rest"])
+                n = len(pl)
+                pl_t = "(sub 48 %d s)" % (HDR + n) if (n > 8 and stream[HDR:HDR + n] == pl) else cb(pl)
+                rs_t = "(drop %d s)" % (HDR + n) if (len(rs) > 8 and stream[HDR + n:] == rs) else cb(rs)
+                m = "(mk_msg %d %d %d %s %s %s)" % (o["proto"], o["len"], u64(o["ts"]), cb(bytes.fromhex(o["id"])), cb(bytes.fromhex(o["orig"])), pl_t)
+                rest = rs_t
             else:
                 m, rest = "dummy_msg", "[]"
-            ritems.append("((%d, %s, %d, %s, %s), %d)" % (mx, cb(bytes.fromhex(c["stream"])), o["cls"], m, rest, o["alloc"]))
+            ritems.append("(let s := %s in ((%d, s, %d, %s, %s), %d))" % (cb(stream), mx, o["cls"], m, rest, o["alloc"]))
             rcases.append((c, o))
         else:
             bitems.append("((%d, %s, %d), (%d, %d, %d))" % (mx, cb(bytes.fromhex(c["stream"])), c["avail"], o["cls"], o["paylen"], o["alloc"]))
@@ -610,6 +629,7 @@ def run(ctx):
         if o["block_id"][:len(o["block_hash"])] != o["block_hash"][:64]:
             pred_fail.append(("C18:blockid-differs", "BlockID() is not BlockHash()", {"case": c, "obs": o}))
 
+    lap("engines")
     # ================================================================= thorough: chain-level F8, real FindBestP2PVersion
     chain_obs, neg_cases, neg_obs = [], [], []
     deep = (not quick) or os.environ.get("VERIF_C18_DEEP") == "1"
@@ -660,6 +680,7 @@ def run(ctx):
                 pred_fail.append(("C18:negotiation", "FindBestP2PVersion did not pick the first accepted version requested", {"requested": c, "chosen": v}))
         dist["negotiate"] = len(neg_cases)
 
+    lap("deep engines")
     # ================================================================= model evaluation
     head = ["From Coq Require Import NArith List Bool Strings.Byte.", "From Verif Require Import Common.Bytes Codec.ChainId P2P.Frame P2P.Handshake P2P.BlockId.",
             "Import ListNotations.", "Open Scope N_scope.",
@@ -673,12 +694,13 @@ def run(ctx):
             "  let '((mx, hdr, avail), (cls, plen, obs)) := c in let '(mc, ma) := read_hdr_class mx hdr avail in",
             "  (mc =? cls) && (if cls =? 0 then ma =? plen else true) && alloc_ok ma obs."]
     shards = []
-    SH = 1200
+    SH = 600 if quick else 1200
     for k in range(0, len(ritems), SH):
         shards.append(("rd%d" % (k // SH), "rd", k, head + [
             "Definition cases := [%s]." % ";\n".join(ritems[k:k + SH]),
-            "Definition MR := Eval vm_compute in mismatches_from rd_ok cases 0.", "Print MR.",
-            "Definition MA := Eval vm_compute in mismatches_from rd_alloc_ok cases 0.", "Print MA."]))
+            "Definition MRA := Eval vm_compute in (mismatches_from rd_ok cases 0, mismatches_from rd_alloc_ok cases 0).",
+            "Definition MR := Eval vm_compute in fst MRA.", "Print MR.",
+            "Definition MA := Eval vm_compute in snd MRA.", "Print MA."]))
     vlist = "[" + ";".join(str(v) for v in vers["vers"]) + "]"
     clist = "[" + ";".join(str(v) for v in vers["consts"][:6]) + "]"
     shards.append(("misc", "misc", 0, head + [
@@ -737,8 +759,10 @@ def run(ctx):
             "Definition MC := Eval vm_compute in mismatches_from chain_ok ccases 0.", "Print MC.",
             "Definition ncases : list (list N * N) := [%s]." % ";\n".join(nitems),
             "Definition MN := Eval vm_compute in mismatches_from negotiate_case_ok ncases 0.", "Print MN."]))
-    for name, kind, off, txt in shards:
-        rc, out = coq_eval(ctx, name, "\n".join(txt))
+    from concurrent.futures import ThreadPoolExecutor
+    with ThreadPoolExecutor(max_workers=4) as ex:      # shards are independent coqc processes
+        outs = list(ex.map(lambda sh_: coq_eval(ctx, sh_[0], "\n".join(sh_[3])), shards))
+    for (name, kind, off, txt), (rc, out) in zip(shards, outs):
         if rc != 0:
             corr.append(("model evaluation failed (%s)" % name, out[-2000:]))
             continue
@@ -782,6 +806,8 @@ def run(ctx):
             elif res["MH"]:
                 corr.append(("checkRemoteStatus and the model differ", [dict(case=mcases[off + i][0], obs=mcases[off + i][1]) for i in res["MH"][:5]]))
 
+    lap("model evaluation")
+    ctx.cov["timing_s"] = tm
     # ================================================================= evidence
     evals = len(W) + len(R) + len(HS) + len(BC) + len(chain_obs) + len(neg_cases)
     ctx.cov["evaluations"] = evals
@@ -860,6 +886,11 @@ def read_predicates(c, kind, wi, o, W, WO):
               and o["payload"] == wc["payload"] and o["len"] == len(wc["payload"]) // 2 and o["rest"] == hx(st[len(fb):]))
         if not ok:
             pred_fail.append(("C18:roundtrip", "a message written by WriteMsg was not read back identically by ReadMsg", {"written": wc, "frame": WO[wi]["bytes"], "case": c, "obs": o}))
+    if o["cls"] == 0 and "_exp" in c:
+        e = c["_exp"]
+        if not (o["proto"] == e["proto"] and o["len"] == e["len"] and o["ts"] == e["ts"] and o["id"] == e["id"] and o["orig"] == e["orig"]):
+            pred_fail.append(("C18:wire-format", "ReadMsg decoded header fields differently from the wire format "
+                              "(BE uint32 sub-protocol, BE uint32 length, BE int64 timestamp, id, original id)", {"case": c, "obs": o}))
     if o["cls"] == 0 and o["paylen"] > mx:
         pred_fail.append(("C18:read-big-accepted", "ReadMsg returned a payload above MaxPayloadLength", {"case": c, "obs": o}))
     return pred_fail
